@@ -71,6 +71,7 @@ def pool_api(repo, chk):
             chk.ok('C09.1', 'R10', fn.site(c), ast.unparse(c)[:100], 'unordered API, but results carry their own names and are never matched by position')
         else:
             chk.ok('C09.1', 'R10', fn.site(c), ast.unparse(c)[:100], f'`{meth}` returns results in input order')
+    partition_by_pool_size(repo, chk, fn, subs)
     # the worker returns the names with the score (so no positional matching is needed)
     w = repo.func('outrank.algorithms.importance_estimator', 'get_importances_estimate_pairwise')
     rets = [n for n in own_nodes(w.node) if isinstance(n, ast.Return)]
@@ -79,6 +80,83 @@ def pool_api(repo, chk):
         chk.note('worker result does not carry names; ordered API is relied upon')
     chk.expect(ok or (subs and subs[0].func.attr in ORDERED_API), 'C09.1b', 'R10', w.site(rets[0]) if rets else w.site(), ast.unparse(rets[0]) if rets else 'return', 'scores are keyed by the names carried inside each triplet (or the API is ordered)',
                'the worker result carries no names and the pool API is unordered')
+
+
+def partition_by_pool_size(repo, chk, fn, subs):
+    """C09.1c - when the work handed to the pool is cut into pieces whose number depends on the size of the pool, the pieces must cover every
+    combination for every pool size.  The iterable of the submission is traced backwards (value_origins); a comprehension of slices
+        X[i * s:(i + 1) * s] for i in range(k)      covers X exactly when k * s >= len(X):   s = ceil(len(X) / k)   -   not s = len(X) // k
+        X[i:i + s] for i in range(0, len(X), s)     always covers X
+    """
+    from .common import value_origins
+    m = fn.module
+    for c in subs:
+        origins = value_origins(m, fn.node, c.args[1], limit=120)
+        sized = [e for _, e in origins if (isinstance(e, ast.Attribute) and e.attr in ('ncpus', 'nodes', 'num_threads', '_processes')) or
+                 (isinstance(e, ast.Call) and isinstance(e.func, ast.Name) and e.func.id == 'getattr' and len(e.args) >= 2 and isinstance(e.args[1], (ast.Constant, ast.Name))) or
+                 (isinstance(e, ast.Call) and (m.dotted(e.func) or '') in ('os.cpu_count', 'multiprocessing.cpu_count'))]
+        if not sized:
+            chk.ok('C09.1c', 'R10', fn.site(c), ast.unparse(c.args[1])[:80], 'what is handed to the pool does not depend on the size of the pool')
+            continue
+        parts = [(g, e) for g, e in origins if isinstance(e, (ast.ListComp, ast.GeneratorExp)) and len(e.generators) == 1 and any(isinstance(x, ast.Subscript) and isinstance(x.slice, ast.Slice) for x in ast.walk(e.elt))]
+        if not parts:
+            chk.unsure('C09.1c', 'R10', fn.site(c), ast.unparse(c.args[1])[:80], f'the work handed to the pool is computed from the size of the pool ({ast.unparse(sized[0])[:40]}); that every combination is still scored '
+                       'exactly once for every pool size is not decided')
+            continue
+        g, e = parts[0]
+        sl = next(x for x in ast.walk(e.elt) if isinstance(x, ast.Subscript) and isinstance(x.slice, ast.Slice))
+        gen = e.generators[0]
+        X = ast.unparse(sl.value)
+
+        def resolve(x, depth=0):
+            if isinstance(x, ast.Name) and depth < 4:
+                b = [n.value for n in ast.walk(g) if isinstance(n, ast.Assign) and len(n.targets) == 1 and isinstance(n.targets[0], ast.Name) and n.targets[0].id == x.id]
+                if len(b) == 1:
+                    return resolve(b[0], depth + 1)
+            return x
+        lo, hi = sl.slice.lower, sl.slice.upper
+        site = m.relpath + f':{e.lineno} {g.name}'
+        i = gen.target.id if isinstance(gen.target, ast.Name) else None
+        rng = gen.iter if isinstance(gen.iter, ast.Call) and isinstance(gen.iter.func, ast.Name) and gen.iter.func.id == 'range' else None
+        if i is None or rng is None or gen.ifs:
+            chk.unsure('C09.1c', 'R10', site, ast.unparse(e)[:100], 'the split of the work over the pool is not one of the recognised slice partitions')
+            continue
+        lenX = (f'len({X})',)
+        # stride form: X[i:i + s] for i in range(0, len(X), s)
+        if len(rng.args) == 3 and isinstance(lo, ast.Name) and lo.id == i and isinstance(hi, ast.BinOp) and isinstance(hi.op, ast.Add) and ast.unparse(hi.left) == i and ast.unparse(hi.right) == ast.unparse(rng.args[2]) \
+                and ast.unparse(rng.args[0]) == '0' and ast.unparse(resolve(rng.args[1])) in lenX:
+            chk.ok('C09.1c', 'R10', site, ast.unparse(e)[:100], 'consecutive slices of one stride over the whole list: every combination is in exactly one piece, whatever the pool size')
+            continue
+        # block form: X[i * s:(i + 1) * s] for i in range(k)
+        def block(lo, hi):
+            if not (isinstance(lo, ast.BinOp) and isinstance(lo.op, ast.Mult) and isinstance(hi, ast.BinOp) and isinstance(hi.op, ast.Mult)):
+                return None
+            a, b = (lo.left, lo.right) if ast.unparse(lo.left) == i else (lo.right, lo.left)
+            if ast.unparse(a) != i:
+                return None
+            s_ = ast.unparse(b)
+            h1, h2 = (hi.left, hi.right) if ast.unparse(hi.right) == s_ else (hi.right, hi.left)
+            if ast.unparse(h2) != s_ or ast.unparse(h1).replace(' ', '') not in (f'({i}+1)', f'{i}+1', f'(1+{i})'):
+                return None
+            return b
+        sname = block(lo, hi) if len(rng.args) == 1 else None
+        if sname is None:
+            chk.unsure('C09.1c', 'R10', site, ast.unparse(e)[:100], 'the split of the work over the pool is not one of the recognised slice partitions')
+            continue
+        k_txt = ast.unparse(rng.args[0])
+        sv = resolve(sname)
+        st = ast.unparse(sv).replace(' ', '')
+        n_ = f'len({X})'.replace(' ', '')
+        ceil_forms = {f'-(-{n_}//{k_txt})', f'({n_}+{k_txt}-1)//{k_txt}', f'math.ceil({n_}/{k_txt})', f'int(math.ceil({n_}/{k_txt}))', f'int(np.ceil({n_}/{k_txt}))', f'-(-{n_}//{k_txt})'.replace('-(-', '-(-'),
+                      f'({n_}-1)//{k_txt}+1'}
+        floor_forms = {f'{n_}//{k_txt}', f'max(1,{n_}//{k_txt})', f'int({n_}/{k_txt})', f'max(1,int({n_}/{k_txt}))', f'round({n_}/{k_txt})', f'max({n_}//{k_txt},1)'}
+        if st in ceil_forms:
+            chk.ok('C09.1c', 'R10', site, f'{ast.unparse(e)[:80]} with {ast.unparse(sname)} = {ast.unparse(sv)[:40]}', 'the pieces have ceil(n / k) elements: k pieces cover all n combinations for every pool size')
+        elif st in floor_forms:
+            chk.bad('C09.1c', 'R10', site, f'{ast.unparse(e)[:80]} with {ast.unparse(sname)} = {ast.unparse(sv)[:40]}', f'the {k_txt} pieces have floor(n / k) elements each: whenever the pool size does not divide the number of '
+                    'combinations the last n mod k combinations are in no piece and are never scored - which pairs are scored depends on the number of workers')
+        else:
+            chk.unsure('C09.1c', 'R10', site, f'{ast.unparse(e)[:80]} with {ast.unparse(sname)} = {ast.unparse(sv)[:40]}', 'whether pieces of this size cover every combination for every pool size is not decided')
 
 
 # -- 2 ------------------------------------------------------------------------------------
@@ -131,6 +209,54 @@ def _const_int(expr, module, repo):
     return False
 
 
+def _is_message(st, m, state):
+    """a statement with no effect on results: a log / warning / print call, or an update of the report-once memo itself"""
+    if isinstance(st, ast.Pass):
+        return True
+    if isinstance(st, ast.Expr) and isinstance(st.value, ast.Call):
+        c = st.value
+        d = m.dotted(c.func) or ast.unparse(c.func)
+        if d.startswith('logging.') or d.startswith('warnings.') or d == 'print' or d.split('.')[0] in ('logger', 'log', 'LOGGER') or (isinstance(c.func, ast.Attribute) and c.func.attr in ('debug', 'info', 'warning', 'error', 'warn', 'critical') and
+                                                                                                     isinstance(c.func.value, ast.Name) and 'log' in c.func.value.id.lower()):
+            return True
+        if isinstance(c.func, ast.Attribute) and isinstance(c.func.value, ast.Name) and c.func.value.id == state and c.func.attr in ('add', 'append', 'update', 'discard', 'clear'):
+            return True
+    return False
+
+
+def _only_gates_messages(repo, reach, f, node, names):
+    """The module-level object mutated at `node` is a report-once memo: every read of it (in the functions that run inside the workers) is in the test of
+    an `if` whose branches do nothing but log and update the memo.  Then each worker's copy only decides how often a message is printed."""
+    state = None
+    for x in ast.walk(node):
+        if isinstance(x, ast.Name) and x.id in names:
+            state = x.id
+            break
+    if state is None:
+        return False
+    for g in reach:
+        if g.module is not f.module:
+            if any(isinstance(x, ast.Name) and x.id == state for x in own_nodes(g.node)) and state in g.module.imports:
+                return False
+            continue
+        par = parents(g.node)
+        for x in own_nodes(g.node):
+            if not (isinstance(x, ast.Name) and x.id == state):
+                continue
+            # climb to the statement
+            q, inside_test = x, None
+            while q in par and not isinstance(q, ast.stmt):
+                q = par[q]
+            if isinstance(q, ast.If) and any(y is x for y in ast.walk(q.test)):
+                if all(_is_message(b, g.module, state) for b in q.body + q.orelse):
+                    continue
+                return False
+            if _is_message(q, g.module, state) and isinstance(par.get(q), ast.If) and all(_is_message(b, g.module, state) for b in par[q].body + par[q].orelse):
+                continue
+            return False
+    return True
+
+
 def worker_purity(repo, chk):
     roots = _worker_root(repo)
     if not roots:
@@ -151,6 +277,8 @@ def worker_purity(repo, chk):
                 names.add(alias)
         for node, kind in mutations_of(f, names):
             if kind == 'rebind' or kind.startswith('call') or kind in ('store', 'augstore', 'del'):
+                if _only_gates_messages(repo, reach, f, node, names):
+                    continue
                 nbad += 1
                 chk.bad('C09.2a', 'R10', f.site(node), ast.unparse(node)[:100], f'{f.qualname} runs inside pool workers and mutates module-level state ({kind}): each forked worker has its own copy, so the effect depends on pool size and scheduling')
         for n in own_nodes(f.node):
@@ -511,12 +639,23 @@ def set_order(repo, chk):
                         chk.ok('C09.5', 'R10', f.site(q), f'for {ast.unparse(q.target)} in {ast.unparse(q.iter)[:80]}', f'commutative consumer: {why}')
                     continue
                 into_array = isinstance(p, ast.Call) and (f.module.dotted(p.func) or '') in ('numpy.fromiter', 'numpy.array', 'numpy.asarray') and isinstance(par.get(p), ast.Assign)
+                # recv.update(<generator over the set>) as a statement: the elements are added to recv one by one, exactly like `for v in <set>: recv.add(v)`
+                bulk = isinstance(n, ast.GeneratorExp) and isinstance(p, ast.Call) and isinstance(p.func, ast.Attribute) and p.func.attr in ('update', 'union_update', 'extend_distinct') and p.args == [n] and isinstance(par.get(p), ast.Expr)
+                if bulk:
+                    key = (f.module.name, f.qualname, ast.unparse(g.iter))
+                    if key in FROZEN_COMMUTATIVE:
+                        chk.ok('C09.5', 'R10', f.site(n), ast.unparse(p)[:100], f'commutative consumer (frozen table), fed in bulk: {FROZEN_COMMUTATIVE[key]}')
+                    else:
+                        chk.unsure('C09.5', 'R10', f.site(n), ast.unparse(p)[:100], 'the elements of a set are added to a container in bulk (.update): order-blind for a set / counter / sketch, observable for a dict - the kind of the receiver is not decided')
+                    continue
                 if wrapped:
                     chk.ok('C09.5', 'R10', f.site(n), ast.unparse(p)[:100], 'order-blind consumer of the comprehension')
                 elif into_array:
                     chk.unsure('C09.5', 'R10', f.site(n), ast.unparse(p)[:100], 'an array is filled in set-iteration order; whether that order is observable depends on how the array is consumed (element-wise operations and commutative scatter updates are order-blind), which is not classified')
                 elif isinstance(n, ast.GeneratorExp) and isinstance(p, ast.Call) and isinstance(p.func, ast.Attribute) and p.func.attr == 'join':
                     chk.bad('C09.5', 'R10', f.site(n), ast.unparse(p)[:100], 'a string is joined in set order')
+                elif isinstance(n, ast.DictComp) and isinstance(par.get(n), (ast.Assign, ast.AnnAssign)) and _only_addressed_by_key(f, par.get(n)):
+                    chk.ok('C09.5', 'R10', f.site(n), ast.unparse(n)[:100], 'the dict built over the set is only ever addressed by key (d[k], d.get(k), k in d, len(d)): its insertion order is never observed')
                 elif isinstance(par.get(n), ast.Assign) and len(par.get(n).targets) == 1 and isinstance(par.get(n).targets[0], ast.Name) and \
                         _only_order_blind_uses(f, par, par.get(n).targets[0].id, par.get(n)):
                     chk.unsure('C09.5', 'R10', f.site(n), ast.unparse(n)[:120], f'a list is built by iterating the set `{ast.unparse(g.iter)[:50]}`, but it is only unpacked into / consumed by operations that do not obviously depend on its order '
@@ -539,6 +678,32 @@ def set_order(repo, chk):
 
 ORDER_BLIND_CONSUMERS = {'set', 'frozenset', 'sorted', 'sum', 'min', 'max', 'any', 'all', 'len', 'Counter', 'collections.Counter', 'zip', 'numpy.maximum.at', 'numpy.add.at', 'numpy.minimum.at',
                          'numpy.asarray', 'numpy.array', 'numpy.max', 'numpy.min', 'numpy.sum', 'numpy.unique'}
+
+
+def _only_addressed_by_key(f, definition):
+    """the dict bound by `definition` to a local name is used for nothing but key look-ups / key stores / membership tests / len (anywhere in the
+    function, closures included) and is bound only there"""
+    tg = definition.targets[0] if isinstance(definition, ast.Assign) and len(definition.targets) == 1 else getattr(definition, 'target', None)
+    if not isinstance(tg, ast.Name):
+        return False
+    name = tg.id
+    full_par = parents(f.node)
+    for x in ast.walk(f.node):
+        if not (isinstance(x, ast.Name) and x.id == name) or x is tg:
+            continue
+        if isinstance(x.ctx, (ast.Store, ast.Del)):
+            return False
+        p = full_par.get(x)
+        if isinstance(p, ast.Subscript) and p.value is x and not isinstance(p.slice, ast.Slice):
+            continue
+        if isinstance(p, ast.Attribute) and p.value is x and p.attr in ('get', 'setdefault', '__contains__', '__getitem__') and isinstance(full_par.get(p), ast.Call):
+            continue
+        if isinstance(p, ast.Compare) and x in p.comparators and all(isinstance(o, (ast.In, ast.NotIn)) for o in p.ops):
+            continue
+        if isinstance(p, ast.Call) and isinstance(p.func, ast.Name) and p.func.id == 'len' and p.args == [x]:
+            continue
+        return False
+    return True
 
 
 def _only_order_blind_uses(f, par, name, definition):
